@@ -41,7 +41,9 @@ reg("C04", "Hypothesis -> tar2sqfs/sqfs2tar (asan) -> independent parser, Python
     "property-based round trips: independent tar writer -> tar2sqfs -> independent parser == reference semantics; sqfs2tar -> two independent tar readers; byte-exact fix point",
     "Archives of every documented dialect are written by an independent generator (cross-checked per case by Python tarfile), converted by the "
     "real tar2sqfs and compared through the independent SquashFS parser with the reference semantics of tar2sqfs.1; sqfs2tar output is read by "
-    "Python tarfile and extracted by GNU tar as root and compared with the image; the tar->image->tar->image fix point is compared byte for byte.",
+    "Python tarfile (headers of hard link members included) and extracted by GNU tar as root and compared with the image; the "
+    "tar->image->tar->image fix point is compared byte for byte. Images written by gensquashfs (sockets, xattrs on every type) are converted "
+    "too, and sparse members with data beyond 8 GiB (old GNU base-256 map fields, PAX 0.1 / 1.0) are read back island by island.",
     "Trusts lib/tarimg.py (writer + Appendix B semantics), lib/sqfsimg.py, Python tarfile and GNU tar 1.34 as readers. One known finding "
     "(xattr order flips per trip) is excluded by signature and reported as KNOWN-FINDING.", "DESIGN.md 4/C04")
 
@@ -50,7 +52,9 @@ reg("C15", "Hypothesis -> reference compressors -> tar2sqfs / sqfs2tar -c (asan)
     "Generated archives are compressed by reference codecs (Python zlib/lzma/bz2, libzstd with checksum) as single and concatenated members, "
     "fed through pipes in chunk sizes down to one byte, with trailing padding/garbage and with truncation, bit flips, zero runs and "
     "duplicated ranges; tar2sqfs must give the image of the plain archive, or refuse damaged input (never a different image with exit 0, never "
-    "a hang within 20-40 s). sqfs2tar -c X is expanded by the reference decompressor and compared with the plain output. Every truncation "
+    "a hang within 20-40 s); a proper prefix that the reference decompressor refuses as incomplete must be refused too. Profiles place the "
+    "end-of-archive marker at the end of a 256 KiB decoder window and start plain V7 archives with names that look like a compressor magic. "
+    "sqfs2tar -c X is expanded by the reference decompressor and compared with the plain output. Every truncation "
     "offset of one small archive per codec is enumerated.",
     "Trusts the reference codecs; hang detection is a wall-clock bound; a damaged stream that the reference decompressor still expands to the "
     "same bytes counts as undamaged.", "DESIGN.md 4/C15")
@@ -84,7 +88,9 @@ reg("C13", "Hypothesis scenarios x exhaustive single-fault positions (LD_PRELOAD
     "For each generated small input and each of gensquashfs (dir / pack file), tar2sqfs, sqfs2tar, rdsquashfs -c/-u: a counting run, then every "
     "single fault position: k-th write/read/open/ftruncate/fsync/lseek failing with ENOSPC/EIO (also EINTR first), k-th project allocation "
     "returning NULL (ASan build with --wrap). No signal/sanitizer report/hang; exit != 0 => diagnostic and, for packers, no output file; "
-    "exit 0 => output identical to the fault-free run.",
+    "exit 0 => output identical to the fault-free run. Archives cut inside members (also members tar2sqfs skips) must be refused; the printing "
+    "tools run with /dev/full as standard output; directed inputs (1.1 MB incompressible through sqfs2tar -c, xattr tables of references) run "
+    "with every fault position on each invocation.",
     "Single faults only; injected at libc wrappers / allocation call sites of project objects; sanitizer runtime symbolizer disabled during "
     "injection (its own pipe I/O would be hit); premature EOF is not a fault (shorter inputs are legitimate).", "DESIGN.md 4/C13")
 
@@ -121,8 +127,10 @@ reg("C05", "libFuzzer (ASan+UBSan) on the reader API + Hypothesis structure-awar
     "fragment) and the sqfs2tar iterator stack + tar header writer over the fuzzed bytes, seeded with Python- and tool-written images of every "
     "compressor and from an empty corpus; a second layer sets 0-3 named on-disk fields of a Python-written image to boundary values or builds "
     "directory loops and runs rdsquashfs -l/-d/-s/-x/-c/-u, sqfs2tar and sqfsdiff (ASan) under a time limit. No sanitizer report, no signal, "
-    "exit status 0/1 (sqfsdiff 0/1/2), termination.",
-    "Fuzz campaigns are approximately reproducible; artifacts are re-run stand-alone before they count; work proportional to sizes an image "
+    "exit status 0/1 (sqfsdiff 0/1/2), termination. Every (inode field x tool) and (super block flag x tool) pair is enumerated on each run, "
+    "and valid images of extreme shape (directory chains of 400-60000 levels written by gensquashfs, directory DAGs) go through every tool.",
+    "One known finding (a directory referenced by several entries is expanded once per reference: exponential work) is excluded by signature and "
+    "reported as KNOWN-FINDING. Fuzz campaigns are approximately reproducible; artifacts are re-run stand-alone before they count; work proportional to sizes an image "
     "merely claims is bounded inside the harness and skipped in the CLI layer.", "DESIGN.md 4/C05")
 
 reg("C07", "libFuzzer (ASan+UBSan) on tar iterator/fstree and the pack/sort/xattr parsers + Hypothesis and exhaustive CLI cases", "exploration",
@@ -130,6 +138,9 @@ reg("C07", "libFuzzer (ASan+UBSan) on tar iterator/fstree and the pack/sort/xatt
     "src/fz_packer.c feeds fuzzed bytes through tar_open_stream (codec detection), the process_tarball loop, fstree and hard-link post-processing, and "
     "through the pack file, sort file and xattr map file parsers; the CLI layer runs tar2sqfs/gensquashfs (ASan) on truncated and damaged archives of "
     "every dialect and codec, on every hard-link graph over three names (and sampled over four) in tar and pack-file form, and on mutated text files. "
+    "PAX headers are also generated as sequences of the records the reader knows (any order, repeats, odd values) and old GNU sparse maps as "
+    "generated number lists, each followed by two ordinary members that must be in the image on exit 0; option sets x well-formed archives / pack, "
+    "sort and xattr files are enumerated as a matrix. "
     "Terminates; no sanitizer report; exit 0 => image satisfies the C03 invariants and the predicted link groups; exit 1 => diagnostic, no output file.",
     "What a malformed sparse map delivers is unspecified and not judged; hang detection is a 30 s limit.", "DESIGN.md 4/C07")
 
@@ -138,7 +149,9 @@ reg("C06", "Hypothesis hostile images (independent writer) -> rdsquashfs --unpac
     "Images whose directory tables carry arbitrary byte strings ('.', '..', 'a/b', '/abs', '../x', NUL, long names), duplicate names pairing a "
     "symlink with a directory or file, unsorted listings and symlinks aimed at sentinels are unpacked by rdsquashfs (ASan, as root) with every "
     "option subset, unpack path and unpack-root style inside a jail; a snapshot (type, mode, owner, inode, links, mtime, size, content, target, "
-    "xattrs, listings) of the jail minus R must be unchanged; on exit 0 the sane unique entries must exist with the right type.",
+    "xattrs, listings) of the jail minus R must be unchanged; on exit 0 the sane unique entries must exist with the right type and contents, at "
+    "every level. In a third of the cases a second generated image (directories where the first had symlinks) is then unpacked into the same "
+    "root and the snapshot must still be unchanged.",
     "Trusts lib/sqfswrite.py; the jail stands in for 'the rest of the file system' (symlink targets point at it absolutely and relatively).",
     "DESIGN.md 4/C06")
 
@@ -148,16 +161,20 @@ reg("C09", "controlled scheduler (src/vsched.cc) under the unmodified threadpool
     "submit/dequeue/get_status with every failure position are executed under all schedules for 1 worker with <=2 items (thorough <=3, and 2 "
     "workers/2 items), under all schedules with <=2 (thorough 3) preemptions for 2-3 workers and 2-3 items, and under random schedules with "
     "spurious wake-ups up to 3 workers / 5 items. Invariants: exactly-once on one worker, exclusive per-worker context, FIFO exactly-once "
-    "hand-back, failure reported instead of blocking, destroy joins; deadlock = no runnable thread.",
-    "Sequentially consistent interleavings at mutex/condvar granularity; the block processor on top of the pool is exercised with real threads "
-    "in C02 (schedule perturbation + ThreadSanitizer), not on the controlled scheduler.", "DESIGN.md 4/C09")
+    "hand-back, failure reported instead of blocking, destroy joins; deadlock = no runnable thread. The block processor is driven on the same "
+    "controlled pool (1-3 workers, backlog 2-8, preemption-bounded DFS): every call returns, every file reads back, and a compressor that fails in "
+    "a worker on the first / last block or the tail of any one file must make some call of the submitter fail.",
+    "Sequentially consistent interleavings at mutex/condvar granularity; block processor programs are bounded by an execution cap per "
+    "configuration, not enumerated completely.", "DESIGN.md 4/C09, 8.3")
 
 reg("C10", "Hypothesis operation histories -> src/c10_hist.c (ASan): long-lived readers vs fresh readers after every step", "exploration",
     "stateful property-based testing: differential between a long-lived reader set and freshly created readers over generated call histories",
     "Histories of 3-40 reader API calls (14 kinds, valid arguments harvested by the independent parser, ~10% invalid ones) run on one long-lived "
     "set of dir/data/xattr/meta readers; after every step the same call runs on a fresh set and (status, digest) must match. Images: tool-written "
     "for every compressor (fragments, sparse, multi-block, out-of-line xattrs, 600 entry directory, export table), Python-written, and "
-    "field-damaged variants. Stream, positional and per-block file access must agree on readable files.",
+    "field-damaged variants, and directed ones (two files stored once with the second inode's block word altered, an unloadable fragment "
+    "block, NUL bytes inside names, destroyed compressed bytes). Stream, positional and per-block file access must agree on readable files; a "
+    "stream read repeated after a failure must not deliver data; paths are passed in allocations of their exact size.",
     "Directory readers use flags 0 (DOT_ENTRIES caching is documented as history dependent); digests are FNV-1a over payloads.", "DESIGN.md 4/C10")
 
 reg("C19", "Hypothesis programs -> src/c19_copy.c (ASan): copy vs twin with the same history, both release orders", "exploration",
@@ -165,7 +182,9 @@ reg("C19", "Hypothesis programs -> src/c19_copy.c (ASan): copy vs twin with the 
     "After a generated pre-history every object of a reader set (file, compressor, id table, dir/data/xattr/meta reader) is duplicated with sqfs_copy(); "
     "interleaved operations on original and copy follow, the copy's answers are compared with a twin built by replaying the pre-history on fresh "
     "objects, either object is released at a random point and the survivor keeps being used. Compressor copies (all ids, both directions) and xattr "
-    "writer copies (sets before / only on the original / after; flushed bytes compared with a twin writer) are covered by dedicated operations.",
+    "writer copies (sets before / only on the original / after; flushed bytes compared with a twin writer) are covered by dedicated operations, "
+    "as are options read from an image before a compressor is copied and copies that fail at their k-th allocation (reader set, xattr writer) "
+    "or for lack of file descriptors: the original is then compared with a twin.",
     "Images from the C10 pool; leak detection is off (the property speaks about crashes and state, leaks of the harness itself would be noise).",
     "DESIGN.md 4/C19")
 
